@@ -9,7 +9,7 @@ import TexcraftModel.Model.C11
 
 namespace C11
 
-def postOf : Nat → C05.PostLig
+def postLigOf : Nat → C05.PostLig
   | 0 => .bothNowhere
   | 1 => .bothInserted
   | 2 => .bothRight
@@ -22,7 +22,7 @@ def postOf : Nat → C05.PostLig
 def toC05Op : Op → C05.RawOp
   | .kern k => .kern k
   | .kernAt i => .kernAt i
-  | .lig c p => .lig c (postOf p)
+  | .lig c p => .lig c (postLigOf p)
   | .redirect u _ => .redirect u
 
 def toC05Instr (i : Instr) : C05.Instr := ⟨i.next, i.right, toC05Op i.op⟩
@@ -33,16 +33,27 @@ fix_words (C05 scales them by the design size first; both files have the same de
 def toC05 (p : Prog) (entries : List (Nat × Nat)) (kerns : List Int) : C05.Program :=
   { instrs := p.instrs.map toC05Instr, lbEntry := p.lb, rb := p.rb, entries := entries, kerns := kerns }
 
+/-- `CompiledProgram::compile_from_tfm_file` (ligkern/mod.rs:132–151) and `impl From<File> for
+pl::File` (pl/mod.rs:551–560): the byte entry points unpacked; invalid ones are dropped. -/
+def unpackAll (instrs : List Instr) (pe : List (Nat × Nat)) : List (Nat × Nat) :=
+  pe.filterMap fun cu => (unpackEntry instrs cu.2).map (fun e => (cu.1, e))
+
 /-- Left characters that can have a rule in `p`, right characters that can be matched. -/
 def lefts (p : C05.Program) : List (Option Nat) := none :: p.entries.map (fun e => some e.1)
 def rights (p : C05.Program) : List Nat := p.instrs.map (·.right)
 
+/-- Remove duplicates (keeps the last occurrence). -/
+def dedup {α : Type} [DecidableEq α] : List α → List α
+  | [] => []
+  | x :: xs => if x ∈ dedup xs then dedup xs else x :: dedup xs
+
 /-- First pair on which the two programs' rules differ (searched over the left characters
 with an entry point in either program plus the left boundary, and the right characters that
-occur in either instruction list; every other pair has no rule in both). -/
+occur in either instruction list; every other pair has no rule in both:
+`firstRuleDiff_sound` in `Lemmas/C11Sem.lean`). -/
 def firstRuleDiff (p q : C05.Program) : Option (Option Nat × Nat) :=
-  let ls := (lefts p ++ lefts q).eraseDups
-  let rs := (rights p ++ rights q).eraseDups
+  let ls := dedup (lefts p ++ lefts q)
+  let rs := dedup (rights p ++ rights q)
   ls.findSome? fun l => (rs.find? fun r => C05.rule p l r != C05.rule q l r).map (fun r => (l, r))
 
 end C11
